@@ -22,6 +22,8 @@ vars == <<c, i, seq, verdict>>
 
 Tr == Cases[c].traces[i]
 
+\* acceptable error of the run being validated (RandomGen(acceptable_error)); 0 = the design as documented
+ErrBudget == IF "VERIF_ERR" \in DOMAIN IOEnv THEN (CHOOSE e \in 0..9 : ToString(e) = IOEnv.VERIF_ERR) ELSE 0
 \* i = 0 is the pseudo-trace that reports the block arithmetic
 Init == /\ c \in 1..NC
         /\ i \in 0..Len(Cases[c].traces)
@@ -44,7 +46,8 @@ Step == /\ verdict = "run" /\ Tr.n >= 0 /\ Len(seq) < Len(Tr.s)
 Finish == /\ verdict = "run" /\ (Tr.n < 0 \/ Len(seq) = Len(Tr.s))
           /\ verdict' = IF Tr.n < 0 THEN "ragged columns"
                         ELSE IF Len(Tr.hidden) > 0 THEN "hidden factor exposed"
-                        ELSE Verdict(FN[c], NB[c], seq)
+                        ELSE IF ErrBudget = 0 THEN Verdict(FN[c], NB[c], seq)
+                        ELSE VerdictErr(FN[c], NB[c], seq, ErrBudget)
           /\ UNCHANGED <<c, i, seq>>
 
 Next == Step \/ Finish
